@@ -206,7 +206,7 @@ impl Check for C11 {
         60_000
     }
     fn runs(&self, tier: &str) -> u64 {
-        if tier == "quick" { 120_000 } else { 20_000_000 }
+        if tier == "quick" { 120_000 } else { 2_500_000 }
     }
     fn gen_case(&self, rng: &mut Rng, _idx: u64, _tier: &str) -> Value {
         let ring = *rng.pick(&["Z", "Z", "Z", "Q", "F2", "F3", "ZH"]);
